@@ -99,6 +99,69 @@ def unlocked_reevaluates(chk):
     chk.explore('redo-unlocked re-evaluates the primary target', run, judge, sample, max_samples=2)
 
 
+def inherit_clears_unlocked(chk):
+    """REDO_UNLOCKED / REDO_NO_OOB are meant for exactly one process (the `redo-ifchange <target>` that redo-unlocked starts under
+    the caller's lock).  Env::inherit must record them and then clear them in the process environment, so that nothing started
+    below runs without locks and without the cycle check."""
+    from specs.depsobl import EnvWorld
+    eng = chk.eng
+    st = {}
+
+    def run():
+        env = {'REDO': '1', 'REDO_BASE': '/p', 'REDO_STARTDIR': '/p', 'REDO_PWD': '', 'REDO_TARGET': 'tgt', 'REDO_RUNID': '5',
+               'REDO_DEPTH': '  '}
+        u = eng.choose(2, 'REDO_UNLOCKED set')
+        n = eng.choose(2, 'REDO_NO_OOB set')
+        if u:
+            env['REDO_UNLOCKED'] = '1'
+        if n:
+            env['REDO_NO_OOB'] = '1'
+        w = EnvWorld(eng, {k: [ord(c) for c in v] for k, v in env.items()})
+        eng.world = w
+        st.update(w=w, u=u, n=n)
+        return eng.call('Env::inherit', [], None, None)
+
+    def judge(outcome, val, path):
+        w = st['w']
+        if outcome != 'ok' or val.var != 'Ok':
+            return {'role': 'env-inherit:' + outcome, 'kind': 'none', 'what': 'Env::inherit: %s %r' % (outcome, val), 'witness': {}}
+        f = {nm: val.f[0].f[i] for i, nm in enumerate(eng.src.structs['Env'])}
+        chk.goal('Env::inherit: REDO_UNLOCKED was set', bool(st['u']))
+
+        def truthy(k):
+            v = w.envmap.get(k)
+            return v is not None and len(v) > 0 and bytes(v) != b'0'
+        bad = None
+        if bool(f['unlocked']) != bool(st['u']) or bool(f['no_oob']) != bool(st['n']):
+            bad = 'the flags are not recorded as given (unlocked=%r no_oob=%r)' % (f['unlocked'], f['no_oob'])
+        elif truthy('REDO_UNLOCKED'):
+            bad = 'REDO_UNLOCKED stays set in the environment: every process started below runs without locks and without the cycle check'
+        elif truthy('REDO_NO_OOB'):
+            bad = 'REDO_NO_OOB stays set in the environment of the processes started below'
+        if bad:
+            return {'role': 'env-inherit:' + bad.split(' ')[0], 'kind': 'scenario', 'what': 'Env::inherit: ' + bad, 'witness': {'env_after': {k: bytes(v).decode() for k, v in w.envmap.items()}},
+                    'files': UNLOCKED_LEAK_FILES, 'script': UNLOCKED_LEAK_SCRIPT, 'violated': 'unlocked_leaks'}
+        return None
+
+    chk.explore('Env::inherit records and clears REDO_UNLOCKED / REDO_NO_OOB', run, judge)
+
+
+UNLOCKED_LEAK_FILES = {
+    'top.do': 'REDO_UNLOCKED=1 REDO_NO_OOB=1 redo-ifchange sub\n',
+    'sub.do': 'echo "U=[$REDO_UNLOCKED] N=[$REDO_NO_OOB]" > seen.txt\necho sub\n',
+}
+UNLOCKED_LEAK_SCRIPT = '''
+redo-ifchange top >log1 2>&1; echo "RC1=$?"
+cat seen.txt
+'''
+
+
+def unlocked_leaks(out):
+    import re
+    m = re.search(r'U=\[(.*?)\] N=\[(.*?)\]', out)
+    return bool(m) and (m.group(1) not in ('', '0') or m.group(2) not in ('', '0'))
+
+
 # end-to-end scenario that manifests the defect with the real binaries (replay of the counterexample)
 STAMP_FILES = {
     'mid.do': 'redo-ifchange src.txt\ncat src.txt >$3\nredo-stamp <$3\n',
@@ -121,4 +184,75 @@ def stale_after_stamp(out):
     return 'RC2=0' in out and 'TOP2=top of v1' in out
 
 
-PREDICATES = {'stale_after_stamp': stale_after_stamp}
+# redo-always: a fresh project, one redo-always target requested by three dependents in one top-level run
+ALWAYS_FILES = {
+    'all.do': 'redo-ifchange a b c\n',
+    'a.do': 'redo-ifchange version\ncat version\n', 'b.do': 'redo-ifchange version\ncat version\n',
+    'c.do': 'redo-ifchange version\ncat version\n',
+    'version.do': 'redo-always\necho ran >> version.count\necho stamp-$$\n',
+}
+ALWAYS_SCRIPT = '''
+redo-ifchange all >log1 2>&1; echo "RC1=$?"
+echo "RUNS1=$(wc -l < version.count)"
+: > version.count
+redo-ifchange all >log2 2>&1; echo "RC2=$?"
+echo "RUNS2=$(wc -l < version.count)"
+'''
+
+
+def always_more_than_once(out):
+    import re
+    runs = [int(x) for x in re.findall(r'RUNS\d=\s*(\d+)', out)]
+    return 'RC1=0' in out and any(r != 1 for r in runs)
+
+
+# redo-ood must not change the database: a generated target whose file was removed makes is_dirty write to its row
+OOD_FILES = {
+    't.do': 'redo-ifchange src\ncat src\n',
+    'p.do': 'redo-ifchange t\ncat t\n',
+    'src': 'v1\n',
+}
+OOD_SCRIPT = '''
+redo-ifchange p >log1 2>&1 || { echo SETUP-FAILED; exit 97; }
+rm -f t
+dump() { python3 - <<'PY'
+import sqlite3
+c = sqlite3.connect('.redo/db.sqlite3')
+rows = c.execute('select name, is_generated, is_override, checked_runid, changed_runid, failed_runid, stamp, csum from Files order by name').fetchall()
+deps = c.execute('select target, source, mode, delete_me from Deps order by target, source').fetchall()
+print(repr((rows, deps)))
+PY
+}
+dump > ../before.txt
+redo-ood > ../ood.txt 2>&1; echo "OODRC=$?"
+redo-targets >/dev/null 2>&1; redo-sources >/dev/null 2>&1
+dump > ../after.txt
+if cmp -s ../before.txt ../after.txt; then echo "DB=same"; else echo "DB=changed"; fi
+sed 's/^/OOD=/' ../ood.txt
+'''
+
+
+# redo-ood must list a checksummed target whose input changed, and its dependents
+OOD_LIST_SCRIPT = '''
+redo-ifchange top >log1 2>&1 || { echo SETUP-FAILED; exit 97; }
+sleep 0.05
+echo v2 > src.txt
+redo-ood 2>/dev/null | sort | tr '\\n' ' ' | sed 's/^/OODLIST=/'; echo
+: > ran.log
+redo-ifchange top >log2 2>&1; echo "RC2=$?"
+echo "TOP2=$(cat top)"
+'''
+
+
+def ood_omits_stamped(out):
+    import re
+    m = re.search(r'OODLIST=(.*)', out)
+    listed = m.group(1).split() if m else []
+    return 'TOP2=top of v2' in out and not ('mid' in listed and 'top' in listed)
+
+
+def ood_changes_db(out):
+    return 'DB=changed' in out
+
+
+PREDICATES = {'stale_after_stamp': stale_after_stamp, 'always_more_than_once': always_more_than_once, 'ood_changes_db': ood_changes_db, 'ood_omits_stamped': ood_omits_stamped, 'unlocked_leaks': unlocked_leaks}
